@@ -79,34 +79,44 @@ class FuncInfo:
 
 
 class Model:
-    def __init__(self, root):
-        self.root = os.path.abspath(root)
+    def __init__(self, root, sources=None):
+        self.root = os.path.abspath(root) if root else "<memory>"
         self.pkg = os.path.join(self.root, "construct")
-        if not os.path.isdir(self.pkg):
+        if sources is None and not os.path.isdir(self.pkg):
             raise AnalysisError("no construct package under %s" % root)
         self.modules = {}       # relpath -> ast.Module
         self.sources = {}       # relpath -> text
         self.classes = {}       # name -> ClassInfo
         self.functions = {}     # module-level function name -> FuncInfo (core + lib)
         self.module_assigns = {}  # relpath -> {name: value node}
+        self.module_imports = {}
         self.digest = hashlib.sha256()
-        self._load()
+        self._load(sources)
         self._link()
 
+    @classmethod
+    def from_sources(cls, sources):
+        """In-memory model (synthetic modules: recovered templates, positive controls)."""
+        return cls(None, sources=sources)
+
     # ------------------------------------------------------------------ load
-    def _load(self):
-        paths = []
-        for dp, dn, fn in os.walk(self.pkg):
-            dn[:] = sorted(d for d in dn if d != "__pycache__")
-            for f in sorted(fn):
-                if f.endswith(".py"):
-                    paths.append(os.path.join(dp, f))
-        if not paths:
-            raise AnalysisError("no python sources under %s" % self.pkg)
-        for p in paths:
-            rel = os.path.relpath(p, self.root)
-            with open(p, "rb") as fh:
-                raw = fh.read()
+    def _load(self, sources=None):
+        items = []
+        if sources is not None:
+            items = [(rel, text.encode("utf-8")) for rel, text in sources.items()]
+        else:
+            paths = []
+            for dp, dn, fn in os.walk(self.pkg):
+                dn[:] = sorted(d for d in dn if d != "__pycache__")
+                for f in sorted(fn):
+                    if f.endswith(".py"):
+                        paths.append(os.path.join(dp, f))
+            if not paths:
+                raise AnalysisError("no python sources under %s" % self.pkg)
+            for p in paths:
+                with open(p, "rb") as fh:
+                    items.append((os.path.relpath(p, self.root), fh.read()))
+        for rel, raw in items:
             self.digest.update(rel.encode() + b"\0" + raw)
             text = raw.decode("utf-8")
             try:
@@ -136,7 +146,6 @@ class Model:
                 if isinstance(st, ast.Import):
                     for al in st.names:
                         imps.add((al.asname or al.name).split(".")[0])
-            self.module_imports = getattr(self, "module_imports", {})
             self.module_imports[rel] = imps
 
     # ------------------------------------------------------------------ link
